@@ -9,8 +9,20 @@ Cases == ndJsonDeserialize(CaseFile)
 
 Exact(x, y) == x.neg = y.neg /\ x.coef = y.coef /\ x.exp = y.exp
 
+\* exponents are int32: a product whose exponent does not fit may be refused (ion-go panics "exponent out of bounds"),
+\* it must not come back as another number; the sums are tested without computing them (TLC integers are 32-bit too)
+MaxE == 2147483647
+ExpSumFits(x, y) == IF x >= 0 /\ y >= 0 THEN x <= MaxE - y
+                    ELSE IF x < 0 /\ y < 0 THEN x >= (0 - MaxE) - y
+                    ELSE TRUE
+OnEdge(x, y) == (x >= 0 /\ y >= 0 /\ x = (MaxE - y) + 1) \/ (x < 0 /\ y < 0 /\ x = ((0 - MaxE) - y) - 1)
+Unchanged(o, c) == Exact(o.aafter, c.a) /\ (c.op \in {"Add", "Sub", "Mul", "Cmp", "Equal"} => Exact(o.bafter, c.b))
+
 Why(o, c) ==
-  IF o.res = "panic" THEN "panic"
+  IF c.op = "Mul" /\ ~ExpSumFits(c.a.exp, c.b.exp) THEN
+     (IF o.res = "panic" \/ OnEdge(c.a.exp, c.b.exp) THEN "ok" ELSE "a product whose exponent does not fit came back as a number")
+  ELSE IF o.res = "panic" THEN "panic"
+  ELSE IF ~Unchanged(o, c) THEN "an operand was changed by the operation"
   ELSE IF c.op \in {"Add", "Sub", "Mul", "Neg", "Abs", "ShiftL", "ShiftR", "Truncate"} THEN
        LET e == CASE c.op = "Add" -> DAdd(c.a, c.b) [] c.op = "Sub" -> DSub(c.a, c.b) [] c.op = "Mul" -> DMul(c.a, c.b)
                   [] c.op = "Neg" -> DNeg(c.a) [] c.op = "Abs" -> DAbs(c.a) [] c.op = "ShiftL" -> DShiftL(c.a, c.n)
